@@ -159,7 +159,10 @@ def run_harness(ob, slots, log=lambda *a: None):
                 r['status'] = 'held'
             return r
         # ---- counterexample: get concrete values and replay natively
-        rc2, out2, wall2, to2 = run_proc(base + ['-Z', 'concrete-playback', '--concrete-playback=print'], ob.get('timeout', 600) * 2, ob.get('mem_gb', 14))
+        # second phase (only on failure): extract concrete values. Kani then checks properties one by one with
+        # traces, which needs far more time and memory than the plain run: generous limits, run alone in its slot
+        rc2, out2, wall2, to2 = run_proc(base + ['-Z', 'concrete-playback', '--concrete-playback=print'],
+                                         max(ob.get('timeout', 600) * 4, 2400), 40)
         r['wall_s'] = round(wall + wall2, 1)
         tests = parse_playback(out2)
         want = set(c['desc'] for c in relevant)
